@@ -25,7 +25,7 @@
                                  [calls_main_prog] holds of the source AND the first ill-typed stage is core
                                  AND the failure is the arity of a call of main
      VIOL class=main-non-integer-result <name> core: <why>  the FORMER finding main-non-integer-result (fixed in /repo by
-                                 <commit12>: such a main is rejected, so this class is a plain violation now): ONLY when the
+                                 5b8c76f: such a main is rejected, so this class is a plain violation now): ONLY when the
                                  declared return type of main is not i64 ([main_nonint]) AND the first ill-typed stage
                                  is core AND the failure is the type of the operand of main's final exit
      VIOL class=ill-typed-stage:core-inside-guard <name> ..  the source satisfies prog_tyguard (the hypothesis of theorem
@@ -131,7 +131,7 @@ Definition is_rebinding_message (why : string) : bool :=
      continuation (corpus/fun/c12_capture_share_dup.sc) *)
   || (prefix "def share_" why && contains ": duplicate parameter" why).
 
-(* former finding main-non-integer-result (fixed by <commit12>; a recurrence is reported under its own class):
+(* former finding main-non-integer-result (fixed by 5b8c76f; a recurrence is reported under its own class):
    the declared return type of main is not i64 (Program::check did not
    constrain it); compile_main then types the operand of the final `exit` with that type *)
 Definition main_nonint (p : fcprog) : bool :=
